@@ -11,6 +11,7 @@ add("released-through-alias","C04","schema_props.go","\t\t\tbestFailures = resul
 # C05
 add("unlocked-default-opts","C05","spec.go","\tdefaultOptsMutex.Lock()\n\topts := defaultOpts\n\tdefaultOptsMutex.Unlock()\n","\topts := defaultOpts\n","LOCKSET:defaultOpts:read:NewSpecValidator")
 add("cache-updated-in-place","C05","rexp.go","\t\t\tnewCache[k] = v\n","\t\t\tnewCache[k] = v\n\t\t\tcache[k] = v\n","COW:published-map-written", quick=False)
+add("shared-slice-written","C05","context.go","\tif err := Enum(\"\", \"\", res, operationTypeEnum); err != nil {","\toperationTypeEnum[0] = request\n\tif err := Enum(\"\", \"\", res, operationTypeEnum); err != nil {","SHARED-REACH:extractOperationType", quick=False)
 # C15
 add("cache-updated-in-place","C15","rexp.go","\t\t\tnewCache[k] = v\n","\t\t\tnewCache[k] = v\n\t\t\tcache[k] = v\n","COW:published-map-written")
 add("compile-error-swallowed","C15","rexp.go","\tr, err := re.Compile(pattern)\n\tif err != nil {\n\t\treturn nil, err\n\t}\n","\tr, err := re.Compile(pattern)\n\tif err != nil {\n\t\treturn nil, nil\n\t}\n","COW:lookup:compileRegexp", quick=False)
